@@ -1,5 +1,6 @@
 import Mochi.Lemmas.BrokerIndexSync
 import Mochi.Lemmas.Gather
+import Mochi.Lemmas.CountersConn
 /-!
 # Who is written a publish: `publishToSubscribers`, entry by entry (C03)
 
@@ -786,5 +787,296 @@ theorem entitledVia_iff_F03 (s : Server) (hx : IdxOK s.topics) (pk : Msg) (hne :
       by_cases ho : pk.origin = cid
       · exact absurd ⟨ho, (hnl cid).mp ⟨sub, hg, hs⟩⟩ h8
       · simp [ho]
+
+end Mochi.Broker
+
+/-! ## One connection per client object, in every history without schedule ops -/
+namespace Mochi.Broker
+open Mochi.Topics
+
+/-- every client object that is not inline is the object its connection number is mapped to -/
+def ConnMap (s : Server) : Prop :=
+  ∀ i, i < s.objs.length → (getObj s i).inline = false → assocGet s.connOf (getObj s i).conn = some i
+
+theorem ConnMap.distinct {s : Server} (h : ConnMap s) : ConnDistinct s := by
+  intro i j hi hj hii hij e
+  have a := h i hi hii
+  have b := h j hj hij
+  rw [e, b] at a
+  cases a
+  rfl
+
+/-- no object created or removed, the connection table, `conn` and `inline` of every object kept -/
+structure CK (s s' : Server) : Prop where
+  len : s'.objs.length = s.objs.length
+  connOf : s'.connOf = s.connOf
+  conn : ∀ k, (getObj s' k).conn = (getObj s k).conn
+  inl : ∀ k, (getObj s' k).inline = (getObj s k).inline
+
+theorem CK.refl (s : Server) : CK s s := ⟨rfl, rfl, fun _ => rfl, fun _ => rfl⟩
+theorem CK.trans {s s1 s2 : Server} (h : CK s s1) (g : CK s1 s2) : CK s s2 :=
+  ⟨g.len.trans h.len, g.connOf.trans h.connOf, fun k => (g.conn k).trans (h.conn k), fun k => (g.inl k).trans (h.inl k)⟩
+
+theorem CK.of_frame {i : Nat} {s s' : Server} {o : List Out} (f : Frame i s s' o) : CK s s' := by
+  refine ⟨f.len, f.connOf, fun k => ?_, fun k => ?_⟩
+  · by_cases hk : k = i
+    · subst hk; exact f.conn
+    · exact (f.other k hk).conn.symm
+  · by_cases hk : k = i
+    · subst hk; exact f.inline
+    · exact (f.other k hk).inline.symm
+
+theorem CK.of_quietC {s s' : Server} (q : QuietC s s') : CK s s' :=
+  ⟨q.len, q.connOf, fun k => (q.all k).conn.symm, fun k => (q.all k).inline.symm⟩
+
+theorem CK.of_objs {s s' : Server} (ho : s'.objs = s.objs) (hn : s'.connOf = s.connOf) : CK s s' :=
+  ⟨by rw [ho], hn, fun k => by rw [getObj_of_objs_eq ho k], fun k => by rw [getObj_of_objs_eq ho k]⟩
+
+theorem CK.mod (s : Server) (i : Nat) (f : Client → Client) (hc : ∀ c, (f c).conn = c.conn)
+    (hi : ∀ c, (f c).inline = c.inline) : CK s (modObj s i f) := by
+  have key : ∀ k, (getObj (modObj s i f) k).conn = (getObj s k).conn ∧
+      (getObj (modObj s i f) k).inline = (getObj s k).inline := by
+    intro k
+    unfold modObj
+    by_cases hk : k = i
+    · subst hk
+      rcases getObj_setObj_self_cases s k (f (getObj s k)) with e | e
+      · rw [e]; exact ⟨hc _, hi _⟩
+      · rw [e]; exact ⟨rfl, rfl⟩
+    · rw [getObj_setObj_ne s i k _ hk]; exact ⟨rfl, rfl⟩
+  exact ⟨setObj_length s i _, rfl, fun k => (key k).1, fun k => (key k).2⟩
+
+theorem ConnMap.of_ck {s s' : Server} (h : ConnMap s) (g : CK s s') : ConnMap s' := by
+  intro i hi hin
+  rw [g.len] at hi
+  rw [g.inl] at hin
+  rw [g.connOf, g.conn]
+  exact h i hi hin
+
+theorem recvOn_ck (s : Server) (c : Nat) (pk : InPk) (b : Bool) : CK s (recvOn s c pk b).1 := by
+  cases hc : assocGet s.connOf c with
+  | none =>
+    have : recvOn s c pk b = (s, []) := by unfold recvOn; rw [hc]
+    rw [this]; exact CK.refl s
+  | some i => exact CK.of_frame (recvOn_frame s c pk b i hc)
+
+theorem incConn_ck (s : Server) : CK s (incConn s) := CK.of_objs rfl rfl
+
+theorem admitA_ck (s : Server) (i : Nat) (k : Connect) : CK s (admitA s i k).1 := by
+  cases he : assocGet s.clients k.id with
+  | some e =>
+    exact ((incConn_ck s).trans (CK.of_frame (stopClient_frame (incConn s) e))).trans
+      (CK.of_quietC (admitA_qc_some s i k e he).q)
+  | none => exact (incConn_ck s).trans (CK.of_quietC (admitA_qc_none s i k he).q)
+
+theorem admitClient_ck (s : Server) (i conn : Nat) (k : Connect) : CK s (admitClient s i conn k).1 := by
+  rw [admitClient_fst]
+  have a := admitA_ck s i k
+  have b := CK.of_quietC (admitConnack_quiet_cnt (admitA s i k).1 i conn (admitA s i k).2.2.1)
+  refine CK.trans ?_ (CK.of_quietC (admitC_quiet_cnt _ i k _))
+  cases (admitA s i k).2.2.2 with
+  | none => exact a.trans b
+  | some e => exact (a.trans b).trans (CK.of_frame (detach_frame _ e true))
+
+theorem connMap_addObj {s : Server} (h : ConnMap s) (c : Client) (conn : Nat) (hcc : c.conn = conn)
+    (hf : conn ∉ s.connOf.map (·.1)) :
+    ConnMap { s with objs := s.objs ++ [c], connOf := s.connOf ++ [(conn, s.objs.length)] } := by
+  intro j hj hin
+  have ho : ({ s with objs := s.objs ++ [c], connOf := s.connOf ++ [(conn, s.objs.length)] } : Server).objs =
+      s.objs ++ [c] := rfl
+  have hj' : j < s.objs.length + 1 := by simpa using hj
+  show assocGet (s.connOf ++ [(conn, s.objs.length)]) _ = some j
+  by_cases hlt : j < s.objs.length
+  · rw [getObj_append_lt ho j hlt] at hin ⊢
+    rw [assocGet_append, h j hlt hin]
+    rfl
+  · have : j = s.objs.length := by omega
+    subst this
+    rw [getObj_append_eq ho, hcc]
+    exact assocGet_append_fresh _ _ _ hf
+
+theorem connect_connMap (s : Server) (conn : Nat) (k : Connect) (h : ConnMap s) (hf : conn ∉ s.connOf.map (·.1)) :
+    ConnMap (connect s conn k).1 := by
+  unfold connect
+  extract_lets +onlyGivenNames c i s1
+  have h1 : ConnMap s1 := connMap_addObj h c conn rfl hf
+  split
+  · exact h1.of_ck (CK.of_frame (stopClient_frame s1 i))
+  · exact h1.of_ck (admitClient_ck s1 i conn k)
+
+/-- `ConnMap` is kept by every op that is not a schedule op -/
+theorem ConnMap_step_seq (s : Server) (op : Op) (h : ConnMap s) (hseq : op.isSeq = true) (hfresh : OpFresh s op) :
+    ConnMap (step s op).1 := by
+  cases op with
+  | connect conn k =>
+    have hf : conn ∉ s.connOf.map (·.1) := hfresh
+    rw [step]
+    split
+    rename_i s1 o h1
+    have c1 : ConnMap s1 := by
+      have := connect_connMap s conn k h hf
+      rw [h1] at this; exact this
+    split
+    · split
+      · split
+        rename_i s2 o2 h2
+        have := recvOn_ck s1 conn .pingreq false
+        rw [h2] at this
+        exact c1.of_ck this
+      · exact c1
+    · exact c1
+  | recv conn pk =>
+    rw [step]
+    exact h.of_ck (recvOn_ck s conn pk true)
+  | drop conn =>
+    rw [step]
+    split
+    · exact h
+    · rename_i i hc
+      split
+      · exact h
+      · extract_lets +onlyGivenNames s1
+        have k1 : CK s s1 := CK.mod s i _ (fun _ => rfl) (fun _ => rfl)
+        split
+        rename_i s2 o h2
+        have := CK.of_frame (detach_frame s1 i true)
+        rw [h2] at this
+        exact h.of_ck (k1.trans this)
+  | recvCut conn pk =>
+    rw [step]
+    split
+    · exact h
+    · rename_i i hc
+      split
+      · exact h
+      · extract_lets +onlyGivenNames s1
+        have k1 : CK s s1 := CK.mod s i _ (fun _ => rfl) (fun _ => rfl)
+        split
+        rename_i s2 o h2
+        have k2 : CK s1 s2 := by
+          have := recvOn_ck s1 conn pk false
+          rw [h2] at this; exact this
+        split
+        rename_i s3 o2 h3
+        show ConnMap s3
+        split at h3
+        · cases h3; exact h.of_ck (k1.trans k2)
+        · have := CK.of_frame (detach_frame s2 i true)
+          rw [h3] at this
+          exact h.of_ck ((k1.trans k2).trans this)
+  | tick kind t => exact h.of_ck (CK.of_quietC (tick_quiet s kind t))
+  | inlinePublish topic payload retain qos =>
+    rw [step]
+    exact h.of_ck (CK.of_frame (receivePacket_frame s 0 _))
+  | inlineSubscribe id filter =>
+    rw [step]
+    split
+    · exact h
+    · exact h.of_ck (CK.of_objs rfl rfl)
+  | inlineUnsubscribe id filter =>
+    rw [step]
+    split
+    · exact h
+    · exact h.of_ck (CK.of_objs rfl rfl)
+  | dropHold conn => cases hseq
+  | dropHoldEarly conn => cases hseq
+  | connectHold conn k stage => cases hseq
+  | release conn => cases hseq
+
+theorem ConnMap_init (caps : Caps) : ConnMap (init caps) := by
+  intro i hi hin
+  have : i = 0 := by
+    have : i < 1 := hi
+    omega
+  subst this
+  cases hin
+
+theorem ConnMap_run_seq_from (s : Server) (ops : List Op) (h : ConnMap s) (hseq : SeqOps ops) (hf : OpsFresh s ops) :
+    ConnMap (run s ops) := by
+  induction ops generalizing s with
+  | nil => exact h
+  | cons op ops ih =>
+    exact ih _ (ConnMap_step_seq s op h (hseq op List.mem_cons_self) hf.1)
+      (fun o ho => hseq o (List.mem_cons_of_mem _ ho)) hf.2
+
+/-- one connection per client object, in every history without schedule ops -/
+theorem ConnDistinct_run_seq (caps : Caps) (ops : List Op) (hseq : SeqOps ops) (hf : OpsFresh (init caps) ops) :
+    ConnDistinct (run (init caps) ops) :=
+  (ConnMap_run_seq_from _ ops (ConnMap_init caps) hseq hf).distinct
+
+/-! ## In terms of the sessions: the registered session lists a matching plain filter -/
+
+/-- for a registered client, "the index holds a matching plain subscription under its id" is "its session lists a
+    plain filter that matches" — `SyncInv.own` (no orphan entries) and `SyncInv.ownB` (its converse for plain
+    filters) -/
+theorem matching_iff_session {s : Server} (h : SyncInv s) (hw : WF s) {cid : Str} {i : Nat}
+    (hm : (cid, i) ∈ s.clients) (topic : Str) :
+    (∃ sub, MatchingSub s.topics topic cid sub) ↔
+      ∃ f ∈ subKeys (getObj s i), shareKey f = false ∧ specMatch (splitLevels f) topic = true := by
+  have hg := assocGet_of_mem_nodup _ _ _ hw.clients_nodup hm
+  constructor
+  · rintro ⟨sub, hpl, hsm⟩
+    obtain ⟨i', hi', hf⟩ := h.own cid sub.filter (Or.inl ⟨_, sub, hpl, rfl⟩)
+    rw [hg] at hi'
+    cases hi'
+    exact ⟨sub.filter, hf, (h.idx.pos.plain _ cid sub hpl).1, hsm⟩
+  · rintro ⟨f, hf, hs, hsm⟩
+    have hp := h.ownB cid i hg f hf hs
+    unfold HasPlain at hp
+    cases hq : plainAt s.topics (plainPath f) cid with
+    | none => rw [hq] at hp; cases hp
+    | some sub =>
+      have e : sub.filter = f := plainPath_inj (h.idx.pos.plain _ cid sub hq).2
+      rw [plainPath_eq] at hq
+      exact ⟨sub, by rw [e]; exact hq, by rw [e]; exact hsm⟩
+
+/-- `EntitledF03` with "holds a matching index entry" read off the SESSION: the client object registered under the
+    id lists a plain filter (first level not `$share`) that `specMatch`es the topic -/
+def EntitledSession (s : Server) (pk : Msg) (n : Nat) : Prop :=
+  ∃ cid i, (cid, i) ∈ s.clients ∧ (getObj s i).conn = n ∧ (getObj s i).isOpen = true ∧
+    (getObj s i).inline = false ∧ (getObj s i).peerGone = false ∧
+    (∃ f ∈ subKeys (getObj s i), shareKey f = false ∧ specMatch (splitLevels f) pk.topic = true) ∧
+    aclOk s cid pk.topic false = true ∧
+    ¬ (pk.origin = cid ∧ ∃ sub, MatchingSub s.topics pk.topic cid sub ∧ sub.noLocal = true)
+
+theorem entitledF03_iff_session {s : Server} (h : SyncInv s) (hw : WF s) (pk : Msg) (n : Nat) :
+    EntitledF03 s pk n ↔ EntitledSession s pk n := by
+  constructor
+  · rintro ⟨cid, i, h1, h2, h3, h4, h5, h6, h7, h8⟩
+    exact ⟨cid, i, h1, h2, h3, h4, h5, (matching_iff_session h hw h1 pk.topic).mp h6, h7, h8⟩
+  · rintro ⟨cid, i, h1, h2, h3, h4, h5, h6, h7, h8⟩
+    exact ⟨cid, i, h1, h2, h3, h4, h5, (matching_iff_session h hw h1 pk.topic).mpr h6, h7, h8⟩
+
+/-- no particle holds a shared subscription: no shared subscription is a candidate for any topic -/
+theorem subscribers_shared_nil (x : Index) (topic : Str) (h : ∀ n ∈ x.nodes, n.shared = []) :
+    (subscribers x topic).shared = [] := by
+  unfold subscribers
+  split
+  · rfl
+  · refine foldl_inv (fun acc : Subscribers => acc.shared = []) _ _ _ rfl ?_
+    intro acc g ha
+    cases g with
+    | subs p =>
+      simp only [gatherStep]
+      split
+      · exact ha
+      · exact ha
+    | shared p =>
+      simp only [gatherStep]
+      split
+      · exact ha
+      · rename_i n hn
+        split
+        · exact ha
+        · show n.shared.foldl _ acc.shared = []
+          rw [h n (getNode_mem hn)]
+          exact ha
+    | inline p =>
+      simp only [gatherStep]
+      split
+      · exact ha
+      · split
+        · exact ha
+        · exact ha
 
 end Mochi.Broker
